@@ -170,9 +170,10 @@ def main():
                                 "how": "./check C05 --replay <this file> re-runs the Decide scenarios against /repo"})
     # ---- model
     nlabels = 0
+    tag = "" if vp.REPO == "/repo" and replay is None else "s"   # scratch trees / replays do not overwrite the case files of a normal run
     for si, shard in enumerate(shards(traces)):
         nlabels += sum(len(t["labels"]) for t in shard)
-        rc, cout = vp.coq_eval("C05_%d" % si, cases_v(out, shard))
+        rc, cout = vp.coq_eval("C05%s_%d" % (tag, si), cases_v(out, shard))
         if rc != 0:
             R.broke("correspondence:cases_C05_%d does not compile" % si, cout[-3000:])
             continue
